@@ -584,9 +584,13 @@ pub fn execute_pair(plan: &Plan, verbose: bool) -> Outcome {
         for (k, _, _) in ks.iter() {
             *count.entry(base.bound_names.get(*k as usize - 1).cloned().unwrap_or_default()).or_insert(0) += 1;
         }
-        let mut names: Vec<(u64, String)> = count.into_iter().map(|(n, c)| (c, n)).collect();
+        // (first the boundaries met while a stored matched-blocks record is not in memory - the
+        // state after a restart or a rollback, in which the next operation recovers or discards it)
+        let mut names: Vec<(u64, u64, String)> = count.into_iter().map(|(n, c)| (if n.contains("[R-") { 0 } else { 1 }, c, n)).collect();
         names.sort();
-        let name = names[((slot / 2) % names.len() as u64) as usize].1.clone();
+        // (the paired operation takes part in the choice, so that the thirteen cases of one slot
+        // walk thirteen different (site, state) names instead of sharing one)
+        let name = names[(((slot / 2) * 13 + op) % names.len() as u64) as usize].2.clone();
         let by_site: Vec<(u64, u64, String)> = ks
             .iter()
             .filter(|(k, _, _)| base.bound_names.get(*k as usize - 1).map(|n| *n == name).unwrap_or(false))
@@ -637,6 +641,7 @@ pub fn execute_pair(plan: &Plan, verbose: bool) -> Outcome {
     }
     stats.insert(format!("c17.A.{}", kind), 1);
     stats.insert(format!("c17.B.{}", PAIR_OPS[op as usize]), 1);
+    stats.insert(format!("c17.at.{}", base.bound_names.get(k as usize - 1).cloned().unwrap_or_default()), 1);
     let what = format!(
         "A = {} (event {}, parked before write {}), B = {}",
         kind, e, k, PAIR_OPS[op as usize]
